@@ -1,27 +1,55 @@
 import Driver.Common
 import SSV.Model.SWF
-open SSV SSV.SWF
+import SSV.Model.UdpSession
+open SSV SSV.SWF SSV.UdpSession
 
-/-- driver state: the filter under test -/
-def stepC04 (f : Filter) (line : String) : Filter × String :=
+/-- driver state: the filter under test (engine `swf`), a server and a client unpacker (engine `udpsess`) -/
+structure DState where
+  f : Filter
+  srv : ServerState
+  cli : ClientState
+
+def b01 (s : String) : Option Bool :=
+  if s == "1" then some true else if s == "0" then some false else none
+
+def sidStr (s : Option Session) : String :=
+  match s with | some x => toString x.sid | none => "-"
+
+def stepSwf (f : Filter) (fs : List String) : Option (Filter × String) :=
+  match fs with
+  | ["new", n] => n.toNat?.map fun k => (new k, s!"ok {(new k).ring.length}")
+  | ["add", n] => n.toNat?.map fun k => let (f', b) := add f k; (f', if b then "1" else "0")
+  | ["isok", n] => n.toNat?.map fun k => (f, if isOk f k then "1" else "0")
+  | ["check", n] => n.toNat?.map fun k => if isOk f k then (mustAdd f k, "1") else (f, "0")
+  | ["mustadd", n] => n.toNat?.map fun k => (mustAdd f k, "ok")
+  | ["reset"] => some (reset f, "ok")
+  | ["state"] => some (f, s!"{f.last} {f.ring}")
+  | _ => none
+
+def stepC04 (st : DState) (line : String) : DState × String :=
   match fields line with
-  | ["new", n] => match n.toNat? with
-      | some k => (new k, s!"ok {(new k).ring.length}")
-      | none => (f, "bad-op")
-  | ["add", n] => match n.toNat? with
-      | some k => let (f', b) := add f k; (f', if b then "1" else "0")
-      | none => (f, "bad-op")
-  | ["isok", n] => match n.toNat? with
-      | some k => (f, if isOk f k then "1" else "0")
-      | none => (f, "bad-op")
-  | ["check", n] => match n.toNat? with
-      | some k => if isOk f k then (mustAdd f k, "1") else (f, "0")
-      | none => (f, "bad-op")
-  | ["mustadd", n] => match n.toNat? with
-      | some k => (mustAdd f k, "ok")
-      | none => (f, "bad-op")
-  | ["reset"] => (reset f, "ok")
-  | ["state"] => (f, s!"{f.last} {f.ring}")
-  | _ => (f, "bad-op")
+  | ["srv", "new", n] => match n.toNat? with
+      | some k => ({ st with srv := serverInit (effectiveFilterSize k) }, "ok")
+      | none => (st, "bad-op")
+  | ["srv", "pkt", now, long, pid, auth, hdr, typ, ts, rest] =>
+      match now.toNat?, b01 long, pid.toNat?, b01 auth, b01 hdr, typ.toNat?, ts.toInt?, b01 rest with
+      | some now, some long, some pid, some auth, some hdr, some typ, some ts, some rest =>
+        let p : Packet := { long := long, sid := 0, pid := pid, authentic := auth, hdr := hdr, typ := typ, ts := ts, csid := 0, rest := rest }
+        let (s', r) := serverStep st.srv now p
+        ({ st with srv := s' }, s!"{r.name} {if s'.filter.isSome then "filter" else "nofilter"}")
+      | _, _, _, _, _, _, _, _ => (st, "bad-op")
+  | ["cli", "new", n, csid] => match n.toNat?, csid.toNat? with
+      | some k, some c => ({ st with cli := clientInit (effectiveFilterSize k) c }, "ok")
+      | _, _ => (st, "bad-op")
+  | ["cli", "pkt", now, long, sid, pid, auth, hdr, typ, ts, csid, rest] =>
+      match now.toNat?, b01 long, sid.toNat?, pid.toNat?, b01 auth, b01 hdr, typ.toNat?, ts.toInt?, csid.toNat?, b01 rest with
+      | some now, some long, some sid, some pid, some auth, some hdr, some typ, some ts, some csid, some rest =>
+        let p : Packet := { long := long, sid := sid, pid := pid, authentic := auth, hdr := hdr, typ := typ, ts := ts, csid := csid, rest := rest }
+        let (s', r) := clientStep st.cli now p
+        ({ st with cli := s' }, s!"{r.name} {sidStr s'.cur} {sidStr s'.old}")
+      | _, _, _, _, _, _, _, _, _, _ => (st, "bad-op")
+  | fs => match stepSwf st.f fs with
+      | some (f', o) => ({ st with f := f' }, o)
+      | none => (st, "bad-op")
 
-def main : IO Unit := Driver.run (new 1) stepC04
+def main : IO Unit := Driver.run { f := new 1, srv := serverInit 1, cli := clientInit 1 0 } stepC04
